@@ -20,11 +20,14 @@ import (
 	"time"
 
 	. "github.com/pbenner/autodiff"
+	"github.com/pbenner/autodiff/algorithm/adam"
 	"github.com/pbenner/autodiff/algorithm/backSubstitution"
+	"github.com/pbenner/autodiff/algorithm/bfgs"
 	"github.com/pbenner/autodiff/algorithm/cholesky"
 	"github.com/pbenner/autodiff/algorithm/determinant"
 	"github.com/pbenner/autodiff/algorithm/eigensystem"
 	"github.com/pbenner/autodiff/algorithm/gaussJordan"
+	"github.com/pbenner/autodiff/algorithm/gradientDescent"
 	"github.com/pbenner/autodiff/algorithm/gramSchmidt"
 	"github.com/pbenner/autodiff/algorithm/hessenbergReduction"
 	"github.com/pbenner/autodiff/algorithm/householderBidiagonalization"
@@ -32,7 +35,10 @@ import (
 	"github.com/pbenner/autodiff/algorithm/matrixInverse"
 	"github.com/pbenner/autodiff/algorithm/msqrt"
 	"github.com/pbenner/autodiff/algorithm/msqrtInv"
+	"github.com/pbenner/autodiff/algorithm/newton"
 	"github.com/pbenner/autodiff/algorithm/qrAlgorithm"
+	"github.com/pbenner/autodiff/algorithm/rprop"
+	"github.com/pbenner/autodiff/algorithm/saga"
 	"github.com/pbenner/autodiff/algorithm/svd"
 
 	"verifharness/vh"
@@ -598,7 +604,169 @@ func prepareReal(c *scase, t ScalarType) *call {
 	return nil
 }
 
+// option values: the admissible values are documented by the routines' own
+// argument checks; the calls use tiny well-behaved problems and an explicit
+// iteration limit so that an accepted call returns at once
+type bogusOption struct{}
+
+func prepareOpt(c *scase) *call {
+	if !strings.HasPrefix(c.Op, "opt.") {
+		return nil
+	}
+	d, a := c.D, c.A
+	quad := func(x ConstVector) (MagicScalar, error) {
+		y := NewReal64(0)
+		t := NewReal64(0)
+		for i := 0; i < x.Dim(); i++ {
+			t.Sub(x.ConstAt(i), ConstFloat64(1))
+			t.Mul(t, t)
+			y.Add(y, t)
+		}
+		return y, nil
+	}
+	root := func(x ConstVector) (MagicVector, error) {
+		y := NullDenseReal64Vector(x.Dim())
+		for i := 0; i < x.Dim(); i++ {
+			y.At(i).Sub(x.ConstAt(i), ConstFloat64(1))
+		}
+		return y, nil
+	}
+	x0 := func(n int) DenseFloat64Vector {
+		v := NullDenseFloat64Vector(n)
+		for i := range v {
+			v[i] = 2
+		}
+		return v
+	}
+	sagaF := func(n int) saga.Objective1Dense {
+		basis := make([]DenseFloat64Vector, n)
+		for i := range basis {
+			basis[i] = NullDenseFloat64Vector(n)
+			basis[i][i] = 1
+		}
+		return func(i int, x DenseFloat64Vector) (float64, float64, DenseFloat64Vector, error) {
+			w := x[i] - 1
+			return w * w / 2, w, basis[i], nil
+		}
+	}
+	A := func(n int) *DenseFloat64Matrix {
+		m := NullDenseFloat64Matrix(n, n)
+		spd(m, n, n)
+		return m
+	}
+	switch {
+	case c.Op == "opt.rprop.eta":
+		eta := make([]float64, d[0])
+		for i := range eta {
+			eta[i] = []float64{1.2, 0.5, 0.5}[i]
+		}
+		return &call{nil, func() (interface{}, error) {
+			_, err := rprop.Run(quad, x0(1), 0.01, eta, rprop.MaxIterations{Value: 3})
+			return nil, err
+		}}
+	case c.Op == "opt.bfgs.Hessian":
+		h := NullDenseFloat64Matrix(d[1], d[2])
+		h.SetIdentity()
+		return &call{nil, func() (interface{}, error) {
+			x, err := bfgs.Run(quad, x0(d[0]), bfgs.Hessian{Value: h}, bfgs.MaxIterations{Value: 3})
+			if err != nil {
+				return nil, err
+			}
+			return x, nil
+		}}
+	case c.Op == "opt.saga.regularization":
+		return &call{nil, func() (interface{}, error) {
+			_, _, err := saga.Run(sagaF(2), 2, x0(2), saga.MaxIterations{Value: 2},
+				saga.L1Regularization{Value: float64(a[0])}, saga.L2Regularization{Value: float64(a[1])},
+				saga.TikhonovRegularization{Value: float64(a[2])})
+			return nil, err
+		}}
+	case c.Op == "opt.determinant.LogScale":
+		return &call{nil, func() (interface{}, error) {
+			_, err := determinant.Run(A(2), determinant.PositiveDefinite{Value: a[0] == 1}, determinant.LogScale{Value: a[1] == 1})
+			return nil, err
+		}}
+	case strings.HasPrefix(c.Op, "opt.InSituByValue."):
+		r := strings.TrimPrefix(c.Op, "opt.InSituByValue.")
+		return &call{nil, func() (interface{}, error) {
+			var err error
+			switch r {
+			case "qrAlgorithm":
+				_, _, err = qrAlgorithm.Run(A(2), qrAlgorithm.InSitu{})
+			case "svd":
+				_, _, _, err = svd.Run(A(2), svd.InSitu{})
+			case "hessenbergReduction":
+				_, _, err = hessenbergReduction.Run(A(2), hessenbergReduction.InSitu{})
+			case "householderBidiagonalization":
+				_, _, _, err = householderBidiagonalization.Run(A(2), householderBidiagonalization.InSitu{})
+			case "householderTridiagonalization":
+				_, _, err = householderTridiagonalization.Run(A(2), householderTridiagonalization.InSitu{})
+			case "matrixInverse":
+				_, err = matrixInverse.Run(A(2), matrixInverse.InSitu{})
+			case "cholesky":
+				_, _, err = cholesky.Run(A(2), cholesky.InSitu{})
+			case "determinant":
+				_, err = determinant.Run(A(2), determinant.InSitu{})
+			case "backSubstitution":
+				_, err = backSubstitution.Run(A(2), x0(2), backSubstitution.InSitu{})
+			case "newtonRoot":
+				_, err = newton.RunRoot(root, x0(2), newton.InSitu{}, newton.MaxIterations{Value: 2})
+			case "newtonMin":
+				_, err = newton.RunMin(quad, x0(2), newton.InSitu{}, newton.MaxIterations{Value: 2})
+			case "saga":
+				_, _, err = saga.Run(sagaF(2), 2, x0(2), saga.InSitu{}, saga.MaxIterations{Value: 2})
+			default:
+				vh.Fatal("routine not bound: " + r)
+			}
+			return nil, err
+		}}
+	case strings.HasPrefix(c.Op, "opt.UnknownOption."):
+		r := strings.TrimPrefix(c.Op, "opt.UnknownOption.")
+		return &call{nil, func() (interface{}, error) {
+			var err error
+			switch r {
+			case "rprop":
+				_, err = rprop.Run(quad, x0(1), 0.01, []float64{1.2, 0.5}, rprop.MaxIterations{Value: 2}, bogusOption{})
+			case "bfgs":
+				_, err = bfgs.Run(quad, x0(1), bfgs.MaxIterations{Value: 2}, bogusOption{})
+			case "gradientDescent":
+				stop := gradientDescent.Hook{Value: func([]float64, ConstVector, ConstScalar) bool { return true }}
+				_, err = gradientDescent.Run(quad, x0(1), 0.1, stop, bogusOption{})
+			case "adam":
+				_, err = adam.Run(quad, x0(1), adam.MaxIterations{Value: 2}, bogusOption{})
+			case "saga":
+				_, _, err = saga.Run(sagaF(2), 2, x0(2), saga.MaxIterations{Value: 2}, bogusOption{})
+			case "determinant":
+				_, err = determinant.Run(A(2), bogusOption{})
+			case "cholesky":
+				_, _, err = cholesky.Run(A(2), bogusOption{})
+			case "gaussJordan":
+				X := NullDenseFloat64Matrix(2, 2)
+				X.SetIdentity()
+				err = gaussJordan.Run(A(2), X, x0(2), bogusOption{})
+			default:
+				vh.Fatal("routine not bound: " + r)
+			}
+			return nil, err
+		}}
+	case c.Op == "opt.qrAlgorithm.InSitu.H":
+		in := &qrAlgorithm.InSitu{H: NullDenseFloat64Matrix(d[1], d[2]), InitializeH: true}
+		return &call{nil, func() (interface{}, error) { h, _, e := qrAlgorithm.Run(A(d[0]), in, qrAlgorithm.Symmetric{Value: true}); return h, e }}
+	case c.Op == "opt.backSubstitution.InSitu.X":
+		in := &backSubstitution.InSitu{X: NullDenseFloat64Vector(d[1])}
+		return &call{nil, func() (interface{}, error) { return backSubstitution.Run(A(d[0]), x0(d[0]), in) }}
+	case c.Op == "opt.gramSchmidt.InSitu.Q":
+		in := gramSchmidt.InSitu{Q: NullDenseFloat64Matrix(d[1], d[2])}
+		return &call{nil, func() (interface{}, error) { q, _, e := gramSchmidt.Run(A(d[0]), in); return q, e }}
+	}
+	vh.Fatal("option case not bound in the driver: " + c.Op)
+	return nil
+}
+
 func prepareAlgo(c *scase) *call {
+	if strings.HasPrefix(c.Op, "opt.") {
+		return prepareOpt(c)
+	}
 	d := c.D
 	if len(d) < 2 {
 		return nil
@@ -720,6 +888,7 @@ type mismatchAgg struct {
 	detail   vh.M
 	examples []string
 	seen     map[string]bool
+	score    int
 }
 
 // per-case result, merged by the collector
@@ -986,8 +1155,22 @@ func shapesReplay(args []string) {
 			for _, rp := range r.reports {
 				ag := agg[rp.key]
 				if ag == nil {
-					ag = &mismatchAgg{types: map[string]bool{}, detail: rp.detail, seen: map[string]bool{}}
+					ag = &mismatchAgg{types: map[string]bool{}, detail: rp.detail, seen: map[string]bool{}, score: -1}
 					agg[rp.key] = ag
+				}
+				// keep the most telling example: the largest smallest dimension
+				if c, ok := rp.detail["case"].(*scase); ok {
+					sc, sum := 1000, 0
+					for _, x := range c.D {
+						if x < sc {
+							sc = x
+						}
+						sum += x
+					}
+					if sc*100+sum > ag.score {
+						ag.score = sc*100 + sum
+						ag.detail = rp.detail
+					}
 				}
 				ag.types[rp.tname] = true
 				ag.n++
